@@ -180,3 +180,12 @@ Proof.
       apply (Permutation_in _ (Permutation_sym Hp)). exact Hin.
     + transitivity (@None B); [|symmetry]; apply nth_error_None; [lia|rewrite map_length; lia].
 Qed.
+
+(* ---------- history on the target object: get_lonlats(cache=True) earlier ---------- *)
+(* the cached path slices the stored coordinate grid, the uncached path computes the coordinates of the sliced pixels;
+   for one pointwise coordinate function [coord] they are the same rows *)
+Lemma skipn_map' {A B} (f : A -> B) n : forall l, skipn n (map f l) = map f (skipn n l).
+Proof. induction n as [|n IH]; intros [|x l]; cbn; auto. Qed.
+Lemma cached_rows_equal {P C} (coord : P -> C) (s : pslice) (g : list (list P)) :
+  rows_of s (map (map coord) g) = map coord (rows_of s g).
+Proof. unfold rows_of, take_slice. rewrite skipn_map', firstn_map, <- concat_map. reflexivity. Qed.
